@@ -122,7 +122,7 @@ CLAIMED = {
     ),
     "C19": dict(
         technique="reflection of MRO-resolved class attributes and method owners of the protocol classes; path analysis of the TCP reader loop, handle_line, both add_job variants and the pump; sibling comparison of the two flavours",
-        text="Decides structural necessary conditions only, NOT the differential statement (equal state and output for every segmentation of every byte stream and for both flavours): framing is pyserial's with effective terminator b'\\n' and utf-8 replacement decoding for every protocol class (a repo override of data_received / handle_packet must hand its unchanged argument to the inherited method exactly once on every path); the TCP reader loop - the only repo-owned chunk hand-over - passes every received chunk unchanged, once, in order; handle_line is one function for the threaded and asyncio protocol of a family (or their path summaries agree), keeps no state and only enqueues (gateway.logic, (line,)); deferred and inline job execution agree (append the pair / pop, run once, send exactly that reply / run once, send exactly that reply); both MQTT flavours share one recv that enqueues logic with the mapped command.",
+        text="Decides structural necessary conditions only, NOT the differential statement (equal state and output for every segmentation of every byte stream and for both flavours): framing is pyserial's with effective terminator b'\\n' and utf-8 replacement decoding for every protocol class (a repo override of data_received / handle_packet must hand its unchanged argument to the inherited method exactly once on every path); the TCP reader loop - the only repo-owned chunk hand-over - passes every received chunk unchanged, once, in order; handle_line is one function for the threaded and asyncio protocol of a family (or their path summaries agree), keeps no state and only enqueues (gateway.logic, (line,)); deferred and inline job execution agree (threaded add_job: append the pair from other threads, run at once from the pump thread - D16 -; pump: pop, run once, send exactly that reply; asyncio add_job: run once, send exactly that reply; a line that adds jobs has no reply of its own); both MQTT flavours share one recv that enqueues logic with the mapped command.",
         note="Not decided: the equality of behaviours itself, pyserial's Packetizer / LineReader and the pyserial / asyncio reader loops (external), FIFO order (C16-R4). Each rule fires only on an edit that changes what is framed, decoded, handed over, enqueued, run or sent; benign twins (delegating data_received override, `if reply:` before send, local aliases) are silent in the self-test.",
         ref="DESIGN.md section 4 C19",
     ),
